@@ -27,4 +27,4 @@ def run(ctx):
     lib_py.ll_positional(ctx, py, P, only=ps)
     funcs = {"variant_init_samples_and_index_map"}
     seen = lib_guards.analyse(ctx, P, funcs=funcs)
-    lib_guards.presence(ctx, seen, funcs=funcs)
+    lib_guards.presence(ctx, seen, funcs=funcs, P=P)
